@@ -166,12 +166,12 @@ def r3(idx, rep):
     # ---- header reference: the referenced result's collected lines at the header's index
     fh = idx.method("Reference", "_get_value_from_results")
     rep.analysed(fh)
-    lines = [["1", " x ", "u"], ["2"], ["3", "y", "w"]]
+    lines = [["1", " x ", "u"], ["2"], ["3", "y", "w"], ["4", "", "v"], ["5", "0", "t"]]
     it = Interp(idx, types={"self": "Reference"}, unknown_calls="residual",
                 handlers={"res.csvpath.header_index": lambda i, c, r, a, k: {"id": 0, "b": 1}.get(a[0]), "res.lines.next": lambda i, c, r, a, k: [list(x) for x in lines]})
     ps = it.run_all(fh, args={"ref": {"name": "b"}, "result": Obj("res")})
-    rep.check(len(ps) == 1 and ps[0].result == ("return", ["x", "y"]), "R3", f"{fh.file}::Reference._get_value_from_results table",
-              f"{ps[0].result}; documented ['x', 'y'] (the values collected under the header, from the referenced result's own lines)", K.where(fh, fh.node))
+    rep.check(len(ps) == 1 and ps[0].result == ("return", ["x", "y", "", "0"]), "R3", f"{fh.file}::Reference._get_value_from_results table",
+              f"{ps[0].result}; documented ['x', 'y', '', '0'] (one value per collected line that has the column — an empty cell is a value — from the referenced result's own lines)", K.where(fh, fh.node))
     seen = []
     fr, ps = K.sym_result(idx, "Reference", "_header_value", handlers={"self._get_reference": lambda i, c, r, a, k: {"name": "h"}, "self.get_results": lambda i, c, r, a, k: Obj("RES"),
                                                                  "self._get_value_from_results": lambda i, c, r, a, k: (seen.append(a), "VALS")[1]})
@@ -244,7 +244,7 @@ def r5(idx, rep):
             o = it.handlers["ReferenceParser"](it, None, None, [s_], {})
             out = {}
             for k in ("root_major", "root_minor", "datatype"):
-                out[k] = it.store.get(f"{o.name}.{k}")
+                out[k] = it.eval(ast.parse(f"o.{k}", mode="eval").body, {"o": o})  # through the property getter
             names = it.store.get(f"{o.name}._names") or [None] * 4
             out["name_one"], out["name_two"], out["name_three"], out["name_four"] = (list(names) + [None] * 4)[:4]
             return out
